@@ -799,7 +799,16 @@ pub fn c14_scenario(ch: &mut Chooser, thorough: bool) -> Exec {
         return Exec { outcome: 0, violation: None, features: vec!["skipped-invalid-config"] };
     }
     // an earlier override (always before the run), so that sequences of two settings occur
-    let (pkind, pval): (usize, u64) = if long { (0, 0) } else { *ch.of("earlier_override(none|link fixed 3|link max 6|global max 7)", &[(0usize, 0u64), (1, 3), (2, 6), (3, 7)]) };
+    let (pkind, pval): (usize, u64) = if long {
+        (0, 0)
+    } else if okind == 3 && gmax >= gmin {
+        // before a change of the global maximum, the link may also have been pinned to a
+        // maximum that happens to equal the global one of that moment
+        let opts = [(0usize, 0u64), (1, 3), (2, 6), (3, 7), (2, gmax.max(gmin))];
+        *ch.of("earlier_override(none|link fixed 3|link max 6|global max 7|link max = current global max)", &opts)
+    } else {
+        *ch.of("earlier_override(none|link fixed 3|link max 6|global max 7)", &[(0usize, 0u64), (1, 3), (2, 6), (3, 7)])
+    };
     let curve = !long && okind == 0 && pkind == 0 && ch.flag("latency_curve_set_at_run_time");
     let apply_kind = |sim: &Sim, okind: usize, oval: u64, glob: &mut (u64, u64), linkcfg: &mut Option<(u64, u64)>| {
         let d = Duration::from_millis(oval);
